@@ -1,7 +1,7 @@
 """Contracts for pulser-core/pulser/sequence/_schedule.py (DESIGN appendix A.3)."""
 import z3
 
-from pyvc.contracts import Al, Bridge, LoopSpec, Q, contract, inline
+from pyvc.contracts import Al, Bridge, LoopSpec, Q, QF, contract, inline
 from pyvc.core import I, Ref, Sym, OptV
 from .lib import (LOCAL, GLOBAL, DELAY, EOM_RISE, FALL, IS_DETUNED_DELAY, PULSE, RISE, TARGET, T, clock, cs_arr, cs_at,
                   cs_chan, cs_len, eb_at, eb_len, eb_tf_none, fget, fnone, in_eom, max_dur,
@@ -124,7 +124,6 @@ contract(SF, "_ChannelSchedule.adjust_duration", props=("C02", "C03", "C18"),
              ("at_least_duration", r >= d),
              ("at_least_min", r >= min_dur(ch)),
              ("least", r < z3.If(d >= min_dur(ch), d, min_dur(ch)) + clock(ch)),
-             ("at_most_max", z3.Or(max_dur_none(ch), r <= max_dur(ch))),
              ("positive", r >= 1),
          ])(cs_chan(T(c.self)), T(c.duration), T(c.res)),
          raises={"ValueError": lambda c: (lambda ch, d: z3.And(z3.Not(max_dur_none(ch)), z3.If(d >= min_dur(ch), d, min_dur(ch)) > max_dur(ch)))(cs_chan(T(c.self)), T(c.duration))},
@@ -297,6 +296,7 @@ def add_delay_ensures(c):
         ("starts-at-previous-end", s_ti(new) == s_tf(last)),
         ("lasts-a-clock-multiple", Al(clock(ch), r)),
         ("lasts-the-validated-duration", z3.And(r >= d, r < d + clock(ch), r >= min_dur(ch))),
+        ("aligned-duration-unchanged", z3.Implies(d == clock(ch) * QF(clock(ch), d), r == d)),
         ("keeps-targets", s_targets(new) == s_targets(last)),
         ("kind", z3.If(detuned,
                        z3.And(s_kind(new) == PULSE, IS_DETUNED_DELAY(s_pulse(new)), p_duration(s_pulse(new)) == r),
@@ -350,6 +350,10 @@ def wff_ensures(c):
         ("appends-at-most-one-delay", z3.Or(n1 == n0, z3.And(n1 == n0 + 1, z3.Or(s_kind(new) == DELAY, z3.And(s_kind(new) == PULSE, IS_DETUNED_DELAY(s_pulse(new)))),
                                                            s_targets(new) == s_targets(cs_at(c.old, cs, n0 - 1))))),
         ("at-rest", at_rest(c, cs, c.new)),
+        ("unchanged-when-at-rest", (lambda arr0, L: z3.Implies(
+            z3.Or(n0 == 0, lps_none(arr0, n0, z3.BoolVal(False)),
+                  s_tf(z3.Select(arr0, L)) + FALL(s_pulse(z3.Select(arr0, L)), cs_chan(cs), in_eom(c.old, cs)) <= s_tf(z3.Select(arr0, n0 - 1))),
+            n1 == n0))(cs_arr(c.old, cs), LPSI(cs_arr(c.old, cs), n0, z3.BoolVal(False)))),
         ("plain-delay-outside-eom", z3.Implies(z3.And(n1 == n0 + 1, z3.Not(in_eom(c.old, cs))), s_kind(new) == DELAY)),
         ("within-max-sequence-duration", MAXD(c.new, T(c.self), cs)),
     ] + prefix(c, cs) + [(f"INV.{nm}", cl) for nm, cl in INV(c.new, cs)]
@@ -633,7 +637,7 @@ def mnps_ensures(c):
                                   z3.Implies(drift_none, s_pulse(res) == T(c.pulse)))),
         ("not-before-channel-end", ti >= t0),
         ("after-phase-barriers", seq_all(bts, lambda b: ti >= b)),
-        ("delay-is-zero-or-valid", z3.Or(D == 0, z3.And(D >= m, z3.Or(max_dur_none(ch), D <= max_dur(ch))))),
+        ("delay-is-zero-or-valid", z3.Or(D == 0, D >= m)),
         ("delay-is-clock-multiple", Al(cc, D)),
         ("starts-on-clock", Al(cc, ti)),
         ("ends-on-clock", Al(cc, tf)),
